@@ -533,6 +533,60 @@ pub fn run(ctx: &Ctx) -> i32 {
         }
     });
     col.layer("D2", done2, complete2, json!({"expressions": total2, "d1_base": base.len(), "leaves": d2_leaves.len()}));
+    // M: type-correct operator chains written with minimal parentheses (the text a user writes), evaluated against the
+    // reference tree: three arithmetic / comparison / boolean operators in all five shapes
+    {
+        let arith = [Bin::Add, Bin::Sub, Bin::Mul, Bin::Div];
+        let leaves3 = [E::Col("i".into()), E::Lit(Lit::Int(7)), E::Col("j".into()), E::Lit(Lit::Int(3))];
+        let mut chains: Vec<E> = Vec::new();
+        for o1 in arith {
+            for o2 in arith {
+                for o3 in arith {
+                    let l = |n: usize| leaves3[n].clone();
+                    chains.push(E::Bin(o3, b(E::Bin(o2, b(E::Bin(o1, b(l(0)), b(l(1)))), b(l(2)))), b(l(3))));
+                    chains.push(E::Bin(o1, b(l(0)), b(E::Bin(o2, b(l(1)), b(E::Bin(o3, b(l(2)), b(l(3))))))));
+                    chains.push(E::Bin(o2, b(E::Bin(o1, b(l(0)), b(l(1)))), b(E::Bin(o3, b(l(2)), b(l(3))))));
+                    chains.push(E::Bin(o3, b(E::Bin(o1, b(l(0)), b(E::Bin(o2, b(l(1)), b(l(2)))))), b(l(3))));
+                    chains.push(E::Bin(o1, b(l(0)), b(E::Bin(o3, b(E::Bin(o2, b(l(1)), b(l(2)))), b(l(3))))));
+                    // comparison of two arithmetic sides, and boolean combination
+                    chains.push(E::Bin(Bin::Lt, b(E::Bin(o1, b(l(0)), b(l(1)))), b(E::Bin(o2, b(l(2)), b(l(3))))));
+                    chains.push(E::Bin(Bin::Or, b(E::Bin(Bin::Eq, b(E::Bin(o1, b(l(0)), b(l(1)))), b(l(3)))), b(E::Bin(Bin::And, b(E::Col("b".into())), b(E::Bin(Bin::Gt, b(E::Bin(o3, b(l(2)), b(l(3)))), b(l(1))))))));
+                }
+            }
+        }
+        let mut n_m = 0u64;
+        for e in &chains {
+            let mut cols = Vec::new();
+            e.columns(&mut cols);
+            let rows = rows_for(&cols, true);
+            let lines: Vec<&str> = rows.iter().map(|(l, _)| l.as_str()).collect();
+            let text = format!("SELECT {} AS x FROM t", e.min());
+            if let Ok(got) = run_rows(&tables, &text, &lines) {
+                for (k, (line, row)) in rows.iter().enumerate() {
+                    n_m += 1;
+                    if let Ev::Val(v) = eval(e, row) {
+                        if !matches!(&got[k], Got::Val(x) if x.close(&v)) {
+                            col.fail(fail(
+                                format!("minimal-text:{}", kind_sig(e, row)),
+                                format!("`{}` (meaning `{}`) on row {}: reference {:?}, implementation {}", e.min(), e.full(), line, v, describe(&got[k])),
+                                json!({"layer": "M", "expr": e.full(), "minimal": e.min(), "line": line}),
+                                v.to_json(),
+                                json!(describe(&got[k])),
+                                e.min().len() as u64,
+                            ));
+                            break;
+                        }
+                    }
+                }
+            } else {
+                col.fail(fail("minimal-text:rejected".into(), format!("`{}` is rejected", text), json!({"layer": "M", "expr": e.full(), "minimal": e.min()}), json!("parses"), json!("rejected"), 0));
+            }
+            col.nontrivial(h64(&("M", e.min())));
+        }
+        col.eval(n_m);
+        col.layer("M-minimal-text-chains", chains.len() as u64, true, json!({"chains": chains.len()}));
+        col.sample(json!({"layer": "M", "statement": "SELECT i - 7 * j + 3 AS x FROM t"}));
+    }
     // statement shapes
     let stables = sut::make_tables(SDEF).unwrap();
     let k = shape_lines().len() as u64;
